@@ -2,48 +2,43 @@
    This file only states theorems; proofs live in SV.C16Proofs / C16Frame / C16Schema / C16Analyse.
    Model: SV.Export (export_model, import_model and their parts, written after signac/import_export.py). *)
 From Coq Require Import String Ascii.
-From SV Require Import Base Json MD5 Canon Export CorrC16 C16Paths C16Frame C16Zip C16Schema C16Analyse C16Proofs.
+From SV Require Import Base Json MD5 Canon Export CorrC16 C16Paths C16Frame C16Zip C16Schema C16Analyse C16Proofs C16ExportFull.
 Local Open Scope N_scope.
 
 (* ====================================================================================================
-   1.  "export rejects non-unique or leaf/node-conflicting paths"   (repairs 55c0c50, fc0e7cc, 3dfa233)
-   FULL STATEMENT: forall o jobs p ds, export_paths o jobs p = ROk ds -> locs_unique ds /\ locs_prefix_free ds.
-   PROVED for every path specification and every order of the jobs, with one remaining side
-   condition: no accepted path normalises to the export root ('.' / '') - or there is only one job.
-   The side condition is necessary: C16_paths_checked_refuted_root.  The former exclusions of the
-   classes F7, F15, F20 are gone. *)
-Theorem C16_accepted_paths_consistent_partial : forall o jobs p ds,
-  export_paths o jobs p = ROk ds ->
-  (forall d, In d ds -> is_root d = false) ->
-  locs_unique ds = true /\ locs_prefix_free ds = true.
+   1.  "export rejects non-unique or leaf/node-conflicting paths"
+       (repairs 55c0c50, fc0e7cc, 3dfa233, 3224fe9)
+   FULL: whatever export_paths accepts - every path specification, every order of the jobs - is
+   pairwise distinct and leaf/node consistent as locations below the target. *)
+Theorem C16_accepted_paths_consistent : forall o jobs p ds,
+  export_paths o jobs p = ROk ds -> locs_unique ds = true /\ locs_prefix_free ds = true.
 Proof. exact accepted_paths_consistent. Qed.
-Print Assumptions C16_accepted_paths_consistent_partial.
+Print Assumptions C16_accepted_paths_consistent.
 
-(* F20' (root): '.' next to another job is accepted although it is a leaf/node conflict, the second
-   job is lost in the round trip; '' and '.' pass the duplicate test although they are one place *)
-Theorem C16_paths_checked_refuted_root :
-  let o := orc root_jobs in
-  export_paths o root_jobs root_spec = ROk [q "."; q "r1"]
-  /\ locs_prefix_free [q "."; q "r1"] = false
-  /\ (let e := export_model o root_jobs KDir root_spec in
-      eo_exn e = None
+(* the former F20' witnesses on the repaired model: the target itself next to another job is refused
+   before anything is written ('.' and '' alike) for every target kind; a single job at 'a/../' (the
+   target itself) makes an exact round trip; 'a/x/../y' next to 'a/x' is copied to 'a/y' and makes an
+   exact round trip for every target kind while the returned mapping shows the paths as written *)
+Theorem C16_repaired_F20 :
+  (let o := orc root_jobs in
+   export_paths o root_jobs root_spec = RExn ERuntimeError
+   /\ export_paths o root_jobs (PCall [(j_id j_a1, ROk (q "r1")); (j_id j_a2, ROk [])]) = RExn ERuntimeError
+   /\ (forall k, In k [KDir; KZip; KTar] ->
+         let e := export_model o root_jobs k root_spec in eo_exn e = Some ERuntimeError /\ art_empty (eo_art e) = true)
+   /\ (forall k, In k [KDir; KZip; KTar] ->
+         let o1 := orc [j_a1] in
+         let e := export_model o1 [j_a1] k (PCall [(j_id j_a1, ROk (q "a/../"))]) in
+         eo_exn e = None /\ eo_map e = [q "a/../"]
+         /\ let i := import_model o1 SchNone (eo_art e) (dst_init []) in
+            io_exn i = None /\ fs_eqb (io_dst i) (expected_dst [] [j_a1]) = true))
+  /\ (forall k, In k [KDir; KZip; KTar] ->
+      let o := orc root_jobs in
+      let e := export_model o root_jobs k lex_spec in
+      eo_exn e = None /\ eo_map e = [q "a/x/../y"; q "a/x"]
       /\ let i := import_model o SchNone (eo_art e) (dst_init []) in
-         io_exn i = None /\ fs_eqb (io_dst i) (expected_dst [] root_jobs) = false)
-  /\ export_paths o root_jobs (PCall [(j_id j_a1, ROk (q ".")); (j_id j_a2, ROk [])]) = ROk [q "."; []]
-  /\ locs_unique [q "."; []] = false.
-Proof. exact root_witness. Qed.
-Print Assumptions C16_paths_checked_refuted_root.
-
-(* F20' (lex): the copy uses the un-normalised string; os.makedirs on 'a/x/../y' creates 'a/x', and the
-   job that belongs there is refused with FileExistsError after the first job has been copied *)
-Theorem C16_raise_clean_refuted_lex :
-  let o := orc root_jobs in
-  export_paths o root_jobs lex_spec = ROk [q "a/x/../y"; q "a/x"]
-  /\ locs_unique [q "a/x/../y"; q "a/x"] = true /\ locs_prefix_free [q "a/x/../y"; q "a/x"] = true
-  /\ (let e := export_model o root_jobs KDir lex_spec in
-      eo_exn e = Some EOSError /\ art_empty (eo_art e) = false).
-Proof. exact lex_witness. Qed.
-Print Assumptions C16_raise_clean_refuted_lex.
+         io_exn i = None /\ fs_eqb (io_dst i) (expected_dst [] root_jobs) = true).
+Proof. exact (conj root_repaired lex_repaired). Qed.
+Print Assumptions C16_repaired_F20.
 
 (* the former counterexamples on the repaired model: refused before anything is written (F7, F19),
    rejected in both orders (F15) *)
@@ -63,7 +58,7 @@ Print Assumptions C16_repaired_F7_F15_F19.
 
 (* ====================================================================================================
    2.  the round trip.
-   FULL STATEMENT (still false of the faithful model only through F20'; F21 is repaired, a52f9e0):
+   FULL STATEMENT (no counterexample is known any more; all former ones are repaired):
      forall o jobs k p, let e := export_model o jobs k p in eo_exn e = None ->
        let i := import_model o SchNone (eo_art e) (dst_init []) in
        io_exn i = None /\ fs_eqb (io_dst i) (expected_dst [] jobs) = true.
@@ -181,23 +176,29 @@ Print Assumptions C16_repaired_F6_F18.
    The directory writer is run on an ARBITRARY initial file system f (it may contain the source
    project); [export_frame f g]: every path not below the target is unchanged, or is a missing parent
    directory of the target that has been created.
-   FULL STATEMENT: the same for every destination that export_paths accepts (since 3dfa233 a path
-   whose normal form is absolute or starts with '..' is refused: C16_repaired_F7_F15_F19).
-   PROVED: for destinations that are [dst_safe] (every path os.makedirs / copytree visits lies in
-   the target or is one of its parents).  The zip / tar writers of the model write no file system
-   at all (their artefact is the member list), so containment is by construction there. *)
-Theorem C16_export_contained_partial : forall jds f,
-  forallb (fun jd => dst_safe (snd jd)) jds = true ->
-  export_frame f (p_val (fold_partial2 export_dir_step jds f)).
-Proof. exact export_dir_contained. Qed.
-Print Assumptions C16_export_contained_partial.
+   FULL (since 3dfa233 / 3224fe9 / 54a5f4b): for every project, every path specification that
+   export_paths accepts and every initial file system.  The proof shows that each accepted,
+   normalised destination is [dst_safe] (C16_accepted_dst_safe: its normal form is '', '.' or a
+   '/'-join of clean components, so every path os.makedirs / copytree visits lies in the target or
+   is one of its parents).  The zip / tar writers of the model write no file system at all (their
+   artefact is the member list), so containment is by construction there. *)
+Theorem C16_export_contained : forall o jobs p ds f,
+  export_paths o jobs p = ROk ds ->
+  export_frame f (p_val (fold_partial2 (export_dir_step (o_rel o)) (combine jobs (List.map norm_dst ds)) f)).
+Proof. exact export_contained_full. Qed.
+Print Assumptions C16_export_contained.
 
-Theorem C16_export_src_unchanged_partial : forall jds f p n,
-  forallb (fun jd => dst_safe (snd jd)) jds = true ->
-  is_prefix TARGET p = false -> fs_get p f = Some n ->
-  fs_get p (p_val (fold_partial2 export_dir_step jds f)) = Some n.
-Proof. exact export_src_unchanged. Qed.
-Print Assumptions C16_export_src_unchanged_partial.
+Theorem C16_export_src_unchanged : forall o jobs p ds f q n,
+  export_paths o jobs p = ROk ds ->
+  is_prefix TARGET q = false -> fs_get q f = Some n ->
+  fs_get q (p_val (fold_partial2 (export_dir_step (o_rel o)) (combine jobs (List.map norm_dst ds)) f)) = Some n.
+Proof. exact export_src_unchanged_full. Qed.
+Print Assumptions C16_export_src_unchanged.
+
+Theorem C16_accepted_dst_safe : forall o jobs p ds,
+  export_paths o jobs p = ROk ds -> forallb dst_safe (List.map norm_dst ds) = true.
+Proof. exact accepted_dst_safe. Qed.
+Print Assumptions C16_accepted_dst_safe.
 
 (* ====================================================================================================
    4.  import never overwrites an existing job and never writes outside job directories.
@@ -273,12 +274,13 @@ Print Assumptions C16_witness_ids_genuine.
 
 (* ====================================================================================================
    7.  licence for the correspondence step.
-   FULL STATEMENT: mismatch_C16 c = false -> known_tag c = 0 (no defect class in the input) -> holds_C16 c = true.
-   PROVED (partial): the source / uniqueness / leaf-node clauses.  The export-containment, no-overwrite
-   and import-containment clauses follow from theorems 3 and 4 at the level of fs_get (the oracle
-   compares sorted listings); the round-trip clause rests on the correspondence. *)
+   FULL STATEMENT: mismatch_C16 c = false -> holds_C16 c = true.
+   PROVED (partial): the source / uniqueness / leaf-node clauses, now without any side condition.  The
+   export-containment, no-overwrite and import-containment clauses follow from theorems 3 and 4 at
+   the level of fs_get (the oracle compares sorted listings); the round-trip clause rests on the
+   correspondence. *)
 Theorem C16_model_holds_partial : forall c,
-  mismatch_C16 c = false -> cls_root c = false ->
+  mismatch_C16 c = false ->
   h_src c = true /\ h_unique c = true /\ h_leafnode c = true.
 Proof. exact model_holds_paths. Qed.
 Print Assumptions C16_model_holds_partial.
@@ -306,6 +308,14 @@ Example C16_example_schema :
   /\ parse_path (fields_of ex_items) (q "a/-10/b/x_1/c/True") = ROk (Some (sp_of ex_items))
   /\ parse_path (fields_of ex_items) (q "a/-10/b/x 1/c/True") = ROk None.
 Proof. exact schema_example. Qed.
+
+(* a relative one-component directory target and a job whose path is the target itself: _mkdir_p('')
+   raises before anything is created (original behaviour, allowed by C16); other paths are unaffected *)
+Example C16_example_relative_target :
+  let o := {| o_asc := true; o_frepr := []; o_text := []; o_parse := o_parse (orc [j_a1]); o_rel := true |} in
+  (let e := export_model o [j_a1] KDir PNone in eo_exn e = Some EOSError /\ art_empty (eo_art e) = true)
+  /\ (let e := export_model o root_jobs KDir PNone in eo_exn e = None /\ eo_map e = [q "a/1"; q "a/2"]).
+Proof. exact rel_target_example. Qed.
 
 (* ':bool' fields read text exactly as _convert_bool does *)
 Example C16_example_bool_spellings :
